@@ -119,6 +119,75 @@ def build(rng, cls, flavour):
     return S.Ellipsoid(float(a), float(b), float(cc), c)
 
 
+def scaled_copy(obj, s):
+    """the same shape CONSTRUCTED at another absolute scale (vertices, radii, centre times s)."""
+    S = sc.shapes_mod()
+    name = type(obj).__name__
+    if name == "ConvexPolyhedron":
+        return S.ConvexPolyhedron(np.array(obj.vertices) * s)
+    if name == "Polyhedron":
+        return S.Polyhedron(np.array(obj.vertices) * s, [np.array(f) for f in obj.faces], faces_are_convex=obj._faces_are_convex)
+    if name == "ConvexSpheropolyhedron":
+        return S.ConvexSpheropolyhedron(np.array(obj.vertices) * s, obj.radius * s)
+    if name == "Polygon":
+        return S.Polygon(np.array(obj.vertices) * s, normal=np.array(obj.normal))
+    if name == "ConvexPolygon":
+        return S.ConvexPolygon(np.array(obj.vertices) * s, normal=np.array(obj.normal))
+    if name == "ConvexSpheropolygon":
+        return S.ConvexSpheropolygon(np.array(obj.vertices) * s, obj.radius * s, normal=np.array(obj.normal))
+    if name in ("Circle", "Sphere"):
+        return getattr(S, name)(obj.radius * s, np.array(obj.centroid) * s)
+    if name == "Ellipse":
+        return S.Ellipse(obj.a * s, obj.b * s, np.array(obj.centroid) * s)
+    return S.Ellipsoid(obj.a * s, obj.b * s, obj.c * s, np.array(obj.centroid) * s)
+
+
+_PRESCALE_PROPS = ["volume", "area", "surface_area", "perimeter"]
+
+
+def rescale_by_setter(obj, s):
+    """bring the shape to another absolute scale through a PUBLIC size setter (volume if there is one, else area)."""
+    for q in _PRESCALE_PROPS:
+        if hasattr(type(obj), q):
+            setattr(obj, q, float(getattr(obj, q)) * s ** prop_code(q))
+            return q
+    raise ValueError("no size setter")
+
+
+def apply_pre(obj, pre):
+    if not pre:
+        return obj
+    how, s = pre
+    if how == "construct":
+        return scaled_copy(obj, float(s))
+    rescale_by_setter(obj, float(s))
+    return obj
+
+
+def private_arrays(obj, prefix=""):
+    """name -> ndarray for every array the object (and the core of a spheropolytope) keeps."""
+    out = {}
+    for name, val in vars(obj).items():
+        if isinstance(val, np.ndarray):
+            out[prefix + name] = val
+        elif name in ("_polygon", "_polyhedron"):
+            out.update(private_arrays(val, prefix + name + "."))
+        elif isinstance(val, list) and val and all(isinstance(x, np.ndarray) for x in val):
+            for i, x in enumerate(val):
+                out["%s%s[%d]" % (prefix, name, i)] = x
+    return out
+
+
+def shared_with(obj, arrays):
+    """names of private arrays of obj that share memory with one of the given arrays."""
+    hits = []
+    for name, a in private_arrays(obj).items():
+        for other_name, b in arrays.items():
+            if a is b or np.shares_memory(a, b):
+                hits.append((name, other_name))
+    return hits
+
+
 def dims(obj):
     out = {}
     for n in DIMLESS:
@@ -177,7 +246,7 @@ def size_getters(obj, skip=()):
 def eval_case(ctx, case):
     cls, flavour, prop, mode, val = case["cls"], case["flavour"], case["prop"], case["mode"], case["value"]
     rng = np.random.default_rng(case["base_seed"])
-    obj = build(rng, cls, flavour)
+    obj = apply_pre(build(rng, cls, flavour), case.get("pre"))
     size = sc.size_of(obj)
     g0 = geometry(obj)
     d0 = dims(obj)
@@ -220,11 +289,13 @@ def eval_case(ctx, case):
     if mode == "vec":
         target = np.array(val, dtype=float)
         others0 = size_getters(obj)
+        watch = HeapWatch(ctx, obj, cls, 1, {"caller's target": target})
         try:
             setattr(obj, prop, target)
         except Exception as e:
             ctx.fail(sig + ":raises", "assigning a centre raised %s" % exc_kind(e), case, repr(e))
             return
+        watch.check(ctx, case, "%s = target" % prop)
         g1 = geometry(obj)
         back = np.array(getattr(obj, prop), dtype=float)
         size1 = max(size, sc.size_of(obj))
@@ -248,6 +319,28 @@ def eval_case(ctx, case):
                 break
         if cls in sc.CURVED_CLASSES:
             curved_centre_model(ctx, case, g0, target, obj)
+        # ---- the caller keeps its float64 target array: no later setter may touch it, nothing may alias it
+        snap = target.tobytes()
+        hits = shared_with(obj, {"target": target})
+        if hits:
+            ctx.fail(sig + ":aliases-caller-array", "the shape keeps the caller's target array (%s)" % hits[0][0], case, hits)
+            return
+        try:
+            q = rescale_by_setter(obj, 2.0)
+        except Exception as e:
+            ctx.fail(sig + ":then-size-setter-raises", "a size setter after the centre assignment raised %s" % exc_kind(e),
+                     case, repr(e))
+            return
+        if target.tobytes() != snap:
+            ctx.fail(sig + ":mutates-caller-array", "%s after the centre assignment changed the caller's target array" % q,
+                     case, [np.frombuffer(snap).tolist(), target.tolist()])
+            return
+        # vertex classes scale about the origin (centre doubles), curved ones about their own centre (centre stays)
+        back2 = np.array(getattr(obj, prop), dtype=float)
+        want2 = (1.0 if cls in sc.CURVED_CLASSES else 2.0) * np.frombuffer(snap)
+        if not sc.num_close(back2, want2, 2 * size1, 1e-9):
+            ctx.fail(sig + ":centre-after-size-setter", "after doubling the size the centre is not where a similarity puts it",
+                     case, [back2.tolist(), want2.tolist()])
         return
     # positive target
     if getter_raised is not None:
@@ -264,13 +357,22 @@ def eval_case(ctx, case):
     target = float(cur) * val
     others0 = size_getters(obj, skip=(prop,))
     pre = model_pre(obj, cls, prop, cur, None)
+    watch = None if is_shape_parameter(cls, prop) else HeapWatch(ctx, obj, cls, 0, {})
     try:
         setattr(obj, prop, target)
     except Exception as e:
         ctx.fail(sig + ":raises", "assigning a positive target raised %s" % exc_kind(e), case, repr(e))
         return
+    if watch is not None:
+        watch.check(ctx, case, "%s = target" % prop)
     back = float(getattr(obj, prop))
-    if not abs(back - target) <= 1e-9 * abs(target):
+    # relative to the target, never absolute. The lstsq-based circum-/in-ball getters mix rows of the shape's length
+    # scale with a unit normal row: at extreme absolute scales they are themselves only ~1e-8 accurate (C09/C13's
+    # business); there the exactness of the assignment is judged by the scale factor below (1e-12)
+    rb_tol = 1e-6 if (case.get("pre") and prop.startswith(("circum", "in"))) else 1e-9
+    if prop == "circumcircle_radius" and small_scale(case) and 1e-9 * abs(target) < abs(back - target) <= 1e-4 * abs(target):
+        circumcircle_finding(ctx, cls, case, [back, target])        # known finding (see notes/C08.md)
+    elif not abs(back - target) <= rb_tol * abs(target):
         ctx.fail(sig + ":reads-back", "property does not read back as assigned", case, [back, target])
     g1 = geometry(obj)
     model_post(ctx, case, pre, obj, None, target)
@@ -310,6 +412,14 @@ def eval_case(ctx, case):
         return
     if cls in sc.CURVED_CLASSES and "centroid" in g0 and not sc.num_close(g0["centroid"], g1["centroid"], size, 1e-12):
         ctx.fail(sig + ":moves-centre", "a size setter moved the centre of a curved shape", case, "")
+    # ---- the factor is EXACTLY (target/current)^(1/degree): a setter that ignores / rounds a near-identity target, or a
+    # target close to the current value in absolute terms at a tiny scale, fails here (relative, never absolute)
+    kwant = (target / float(cur)) ** (1.0 / prop_code(prop))
+    ktol = 1e-6 if prop in sc.LOOSE else 1e-12
+    if not abs(k - kwant) <= ktol * kwant:
+        ctx.fail(sig + ":wrong-factor", "the shape was scaled by %r, not by (target/current)^(1/%d) = %r"
+                 % (k, prop_code(prop), kwant), case, [k, kwant, (k - kwant) / kwant])
+        return
     d1 = dims(obj)
     if any(isinstance(d0[kx], float) and not sc.num_close(d0[kx], d1.get(kx, np.nan), 1.0, 1e-7) for kx in d0):
         ctx.fail(sig + ":descriptor-changed", "a dimensionless descriptor changed under a size setter", case, [d0, d1])
@@ -317,7 +427,12 @@ def eval_case(ctx, case):
     others1 = size_getters(obj, skip=(prop,))
     for q, v0 in others0.items():
         want = v0 * k ** prop_code(q)
-        tol = 1e-6 if q in sc.LOOSE else 1e-9
+        # miniball and the lstsq-based circum-/in-balls are themselves only ~1e-8 accurate at extreme absolute scales
+        tol = 1e-6 if (q in sc.LOOSE or q.startswith(("circum", "in"))) else 1e-9
+        if q == "circumcircle_radius" and small_scale(case) and q in others1 and \
+                tol * abs(want) < abs(others1[q] - want) <= 1e-4 * abs(want):
+            circumcircle_finding(ctx, cls, case, [v0, others1[q], k])
+            continue
         if q not in others1 or not abs(others1[q] - want) <= tol * abs(want):
             ctx.fail(sig + ":other-measure:" + q, "after the assignment %s is not k^%d times its old value" % (q, prop_code(q)),
                      case, [v0, others1.get(q), k])
@@ -325,7 +440,7 @@ def eval_case(ctx, case):
     # ---- B: the model's scale factor and guard for this setter
     try:
         r = ctx.driver.F("setter.factor", prop_code(prop), float(cur), target)
-        if not abs(r[0] - k) <= 1e-9 * k:
+        if not abs(r[0] - k) <= ktol * k:
             ctx.disagree("setter.factor", case, [r[0], k])
     except ModelRaise as e:
         ctx.disagree("setter.factor", case, "model raised " + e.kind)
@@ -649,6 +764,243 @@ def closed_form_getters(ctx, cls, flavour, base_seed):
                 ctx.disagree("setter.sph.get:" + prop, case, [r[0], live])
 
 
+# ------------------------------------------------------------------ known finding: Polygon.circumcircle at small scales
+
+_THIN_TRIANGLE = np.array([[-0.04181063, 1.23054366, 0.87019993], [0.29206614, 1.46955829, 0.90975153],
+                           [0.36682145, 1.5067784, 0.89943723]])
+
+
+def circumcircle_finding(ctx, cls, case, detail):
+    """`Polygon.circumcircle` stacks the vertex-difference rows (length scale s) with the UNIT normal row in one lstsq:
+    its relative accuracy degrades like eps/s (1e-9 at s = 1e-6, 1e-7 at s = 3e-9). The setter itself scales the
+    vertices by exactly target/current; what fails is 'reads back as assigned' at 1e-9 relative on tiny shapes."""
+    ctx.fail("%s.circumcircle_radius:accuracy-degrades-at-small-scale" % cls,
+             "circumcircle_radius is only ~eps/scale accurate on small shapes, so it does not read back at 1e-9 there",
+             case, detail)
+
+
+def small_scale(case):
+    return bool(case.get("pre")) and float(case["pre"][1]) < 1e-3
+
+
+def circumcircle_probe(ctx):
+    """deterministic witness of the finding (a thin triangle at scale 3e-9), for Polygon and ConvexPolygon."""
+    S = sc.shapes_mod()
+    for cls in ("Polygon", "ConvexPolygon"):
+        s = 3e-9
+        p = getattr(S, cls)(_THIN_TRIANGLE * s)
+        r0 = float(p.circumcircle_radius)
+        v0 = np.array(p.vertices)
+        p.circumcircle_radius = 1.2 * r0
+        k = float(np.linalg.norm(np.array(p.vertices)[0]) / np.linalg.norm(v0[0]))
+        case = {"probe": "circumcircle", "cls": cls, "scale": s}
+        ctx.case(case)
+        if not abs(k - 1.2) <= 1e-12:
+            ctx.fail("%s.circumcircle_radius=:wrong-factor" % cls, "the thin triangle was not scaled by 1.2", case, [k])
+        err = abs(float(p.circumcircle_radius) - 1.2 * r0) / (1.2 * r0)
+        if err > 1e-9:
+            circumcircle_finding(ctx, cls, case, [err])
+
+
+# ------------------------------------------------------------------ B: which arrays a setter writes (Model/SettersHeap.lean)
+
+_HEAP = {}
+
+
+def heap_pattern(ctx, cls, mut):
+    """(attribute paths, kinds) of `SettersHeap.pattern cls mut`; kinds: 0 keep, 1 written in place, 2 re-bound to a
+    fresh array. mut: 0 = `_rescale` (every size setter), 1 = the centre setter."""
+    key = (cls, mut)
+    if key not in _HEAP:
+        r = ctx.driver.F("setter.heap", CLASSES.index(cls), mut)
+        names, pos = _strs(r, 0)
+        _HEAP[key] = (names, [int(x) for x in r[pos:]])
+    return _HEAP[key]
+
+
+def _resolve(obj, path):
+    for part in path.split("."):
+        obj = getattr(obj, part)
+    return obj
+
+
+class HeapWatch:
+    """records the array objects of a shape (and every array that exists besides: the caller's, another shape's)
+    before a setter; afterwards the live object must have done to each attribute what the model's pattern says."""
+
+    def __init__(self, ctx, obj, cls, mut, others):
+        self.cls, self.mut, self.obj = cls, mut, obj
+        self.names, self.kinds = heap_pattern(ctx, cls, mut)
+        self.before = [_resolve(obj, n) for n in self.names]
+        self.bytes = [a.tobytes() for a in self.before]
+        self.existing = dict(private_arrays(obj))
+        self.existing.update(others)
+
+    def check(self, ctx, case, what):
+        ctx.count("heap-pattern-checks")
+        for name, kind, old, old_bytes in zip(self.names, self.kinds, self.before, self.bytes):
+            new = _resolve(self.obj, name)
+            if kind in (0, 1):
+                ok = new is old and (kind == 1 or new.tobytes() == old_bytes)
+                seen = "same array" if new is old else "another array"
+            else:
+                shared = [n for n, a in self.existing.items() if a is new or np.shares_memory(a, new)]
+                ok = new is not old and not shared
+                seen = "same array (in place)" if new is old else ("an existing array: %s" % shared if shared else "fresh")
+            if not ok:
+                ctx.disagree("setter.heap:%s" % name, case,
+                             {"step": what, "model": ["keep", "in place", "re-bound to a fresh array"][kind],
+                              "implementation": seen})
+                return False
+        return True
+
+
+# ------------------------------------------------------------------ histories on PAIRS of shapes that share targets
+
+PAIR_CLASSES = ["ConvexPolyhedron", "Polyhedron", "Polygon", "ConvexPolygon", "Circle", "Ellipse", "Sphere", "Ellipsoid"]
+
+
+def snapshot(obj):
+    """everything a caller can see of a shape that nobody touched: must stay bit-identical."""
+    snap = {k: np.array(v, copy=True) for k, v in private_arrays(obj).items()}
+    for k, v in geometry(obj).items():
+        snap["geometry." + k] = np.array(v, copy=True)
+    for k, v in size_getters(obj, skip=tuple(sc.LOOSE)).items():      # miniball is randomised: not a bit-stable observable
+        snap["getter." + k] = np.float64(v)
+    return snap
+
+
+def snapshot_diff(s0, s1):
+    for k in s0:
+        if k not in s1 or not np.array_equal(np.asarray(s0[k]), np.asarray(s1[k]), equal_nan=True):
+            return k
+    return None
+
+
+def pair_history(ctx, case):
+    """two shapes of one class; the centre of the first is assigned from a float64 array the caller keeps, the second
+    is co-located with it (`b.centroid = a.centroid`, or the same target array again); then size setters on either
+    shape. After EVERY step: the caller's array is byte-identical, the shape that was not addressed is bit-identical,
+    no two private arrays of different shapes (or of a shape and the caller) share memory, and each shape's centre
+    equals the centre of a freshly constructed shape with its current vertices."""
+    cls, share = case["cls"], case["share"]
+    a = build(np.random.default_rng(case["base_seeds"][0]), cls, case["flavours"][0])
+    b = build(np.random.default_rng(case["base_seeds"][1]), cls, case["flavours"][1])
+    shapes = {"a": a, "b": b}
+    prop = case["prop"]
+    sig = "%s.%s=" % (cls, prop)
+    t = np.array(case["target"], dtype=np.float64)
+    t_bytes = t.tobytes()
+    handed = {"target": t}
+
+    def check(step, who):
+        """who = the shape addressed by this step (None: both may have changed)."""
+        if t.tobytes() != t_bytes:
+            ctx.fail(sig + ":mutates-caller-array", "step %s changed the caller's target array" % step, case,
+                     [np.frombuffer(t_bytes).tolist(), t.tolist()])
+            return False
+        for n, o in shapes.items():
+            hits = shared_with(o, handed)
+            if hits:
+                ctx.fail(sig + ":aliases-caller-array", "after %s shape %s keeps an array of the caller (%s ~ %s)"
+                         % (step, n, hits[0][0], hits[0][1]), case, hits)
+                return False
+        hits = shared_with(a, private_arrays(b))
+        if hits:
+            ctx.fail(sig + ":aliases-another-shape", "after %s the two shapes share an array (%s ~ %s)"
+                     % (step, hits[0][0], hits[0][1]), case, hits)
+            return False
+        for n, o in shapes.items():
+            if who is not None and n != who:
+                d = snapshot_diff(snaps[n], snapshot(o))
+                if d is not None:
+                    ctx.fail(sig + ":changes-another-shape", "%s (addressed to shape %s) changed %s of shape %s"
+                             % (step, who, d, n), case, "")
+                    return False
+            try:
+                c_live = np.array(o.centroid, dtype=float)
+                c_true = np.array(sc.fresh_of(o).centroid, dtype=float)
+            except Exception as e:
+                ctx.fail(sig + ":centroid-unavailable", "after %s the centre of shape %s cannot be computed (%s)"
+                         % (step, n, exc_kind(e)), case, repr(e))
+                return False
+            if not sc.num_close(c_live, c_true, sc.size_of(o), 1e-9):
+                ctx.fail(sig + ":centroid-stale", "after %s the centre of shape %s is not the centre of its geometry" % (step, n),
+                         case, [c_live.tolist(), c_true.tolist()])
+                return False
+        return True
+
+    snaps = {}
+    try:
+        setattr(a, prop, t)
+        if share == "getter":
+            got = getattr(a, prop)          # whatever the getter hands out (possibly the live array) ...
+            handed["a." + prop] = got if isinstance(got, np.ndarray) else np.array(got)
+            setattr(b, prop, got)           # ... co-locates the second shape
+        else:
+            setattr(b, prop, t)             # the same target array for both
+    except Exception as e:
+        ctx.fail(sig + ":raises", "co-locating two shapes raised %s" % exc_kind(e), case, repr(e))
+        return
+    # the array the getter handed out may legitimately be the live array of `a` (C15/C16 judge that); it must not
+    # become part of `b`
+    if share == "getter":
+        hits = shared_with(b, {"a." + prop: handed.pop("a." + prop)})
+        if hits:
+            ctx.fail(sig + ":aliases-another-shape", "b.%s = a.%s made b keep a's array (%s)" % (prop, prop, hits[0][0]),
+                     case, hits)
+            return
+    if not check("the centre assignments", None):
+        return
+    for who, q, f in case["ops"]:
+        o = shapes[who]
+        snaps = {n: snapshot(x) for n, x in shapes.items()}
+        try:
+            if q in sc.LOOSE:
+                import random
+                random.seed(20240917)
+            cur = float(getattr(o, q))
+        except Exception:
+            continue
+        other = shapes["b" if who == "a" else "a"]
+        watch = None if is_shape_parameter(cls, q) else \
+            HeapWatch(ctx, o, cls, 0, dict({"other." + k: v for k, v in private_arrays(other).items()}, target=t))
+        try:
+            setattr(o, q, cur * f)
+        except Exception as e:
+            ctx.fail("%s.%s=:raises" % (cls, q), "a positive target raised %s in a pair history" % exc_kind(e), case, repr(e))
+            return
+        ctx.count("pair-steps")
+        if watch is not None:
+            watch.check(ctx, case, "%s.%s = %g * current" % (who, q, f))
+        if not check("%s.%s = %g * current" % (who, q, f), who):
+            return
+
+
+def pair_cases(ctx):
+    rng = ctx.rng
+    S = sc.shapes_mod()
+    cases = []
+    n = 1 if ctx.tier == "quick" else 6
+    for cls in PAIR_CLASSES:
+        props = [q for q in sc.settable_properties(getattr(S, cls)) if q not in ("centroid", "center")]
+        fl = FLAVOURS[cls]
+        for share in ("getter", "same-array"):
+            for prop in ("centroid", "center"):
+                for _ in range(int(n * ctx.widen)):
+                    ops = [[["a", "b"][int(rng.integers(2))], props[int(rng.integers(len(props)))],
+                            float(rng.choice([0.5, 2.0, 1.7, 1 / 3.0, 8.0]))] for _ in range(4)]
+                    ops[0][0] = "a"
+                    ops[1][0] = "b"
+                    # the first steps go through a setter every class has a getter for
+                    ops[0][1] = [q for q in _PRESCALE_PROPS if q in props][0]
+                    cases.append({"pair": True, "cls": cls, "share": share, "prop": prop,
+                                  "flavours": [fl[int(rng.integers(len(fl)))], fl[int(rng.integers(len(fl)))]],
+                                  "base_seeds": [int(rng.integers(1 << 30)), int(rng.integers(1 << 30))],
+                                  "target": rng.uniform(-4, 4, size=3).tolist(), "ops": ops})
+    return cases
+
+
 def all_cases(ctx):
     rng = ctx.rng
     S = sc.shapes_mod()
@@ -662,12 +1014,39 @@ def all_cases(ctx):
                 if prop in ("centroid", "center"):
                     cases.append({"cls": cls, "flavour": flavour, "base_seed": base_seed, "prop": prop, "mode": "vec",
                                   "value": rng.uniform(-5, 5, size=3).tolist()})
+                    if fi < 2:
+                        sc_ = float(10 ** rng.uniform(-9, 9))
+                        cases.append({"cls": cls, "flavour": flavour, "base_seed": base_seed, "prop": prop, "mode": "vec",
+                                      "value": (rng.uniform(-5, 5, size=3) * sc_).tolist(),
+                                      "pre": [["construct", "setter"][int(rng.integers(2))], sc_]})
                     continue
                 nt = (2 if primary else 1) if ctx.tier == "quick" else (8 if primary else 4)
                 for _ in range(int(nt * ctx.widen)):
                     f = float(10 ** rng.uniform(-3, 3))
                     cases.append({"cls": cls, "flavour": flavour, "base_seed": base_seed, "prop": prop, "mode": "pos",
                                   "value": f})
+                if fi < 2:
+                    # near-identity targets (a setter that short-cuts "already the requested size" is wrong)
+                    mags = [1e-3, 1e-6, 1e-9] if ctx.tier == "quick" else [1e-2, 1e-3, 1e-4, 1e-5, 1e-6, 1e-7, 1e-9, 1e-12]
+                    if ctx.tier == "quick" and fi == 1:
+                        mags = [mags[int(rng.integers(3))]]
+                    for mag in mags:
+                        signs = [float(rng.choice([-1, 1]))] if ctx.tier == "quick" else [-1.0, 1.0]
+                        for sg in signs:
+                            cases.append({"cls": cls, "flavour": flavour, "base_seed": base_seed, "prop": prop,
+                                          "mode": "pos", "value": 1.0 + sg * mag})
+                    # extreme absolute scales, reached by construction and through a previous (public) size setter
+                    bands = [(-9, -6), (-6, -3), (3, 6), (6, 9)]
+                    if ctx.tier == "quick":
+                        # always one tiny and one huge scale on the first flavour, one of the four on the second
+                        bands = [bands[int(rng.integers(2))], bands[2 + int(rng.integers(2))]] if fi == 0 else \
+                            [bands[int(rng.integers(4))]]
+                    for lo, hi in bands:
+                        hows = [["construct", "setter"][int(rng.integers(2))]] if ctx.tier == "quick" else ["construct", "setter"]
+                        for how in hows:
+                            f = float(rng.choice([1.2, 1 / 1.15, 1 + 1e-6, 1 - 1e-4, float(10 ** rng.uniform(-1, 1))]))
+                            cases.append({"cls": cls, "flavour": flavour, "base_seed": base_seed, "prop": prop,
+                                          "mode": "pos", "value": f, "pre": [how, float(10 ** rng.uniform(lo, hi))]})
                 zero_ok = prop == "radius" and cls.startswith("ConvexSphero")
                 bads = [-1.0, float("nan")] if zero_ok else [0.0, -1.0, float("nan")]
                 if not primary and ctx.tier == "quick":
@@ -688,7 +1067,7 @@ def model_case(ctx, case):
     (so the read-back theorems of Props/C08.lean speak about what the implementation computes)."""
     import c03
     cls, prop, mode, val = case["cls"], case["prop"], case["mode"], case["value"]
-    if cls not in sc.VERTEX_CLASSES or case["flavour"] not in ("regular", "generic"):
+    if cls not in sc.VERTEX_CLASSES or case["flavour"] not in ("regular", "generic") or case.get("pre"):
         return
     if is_shape_parameter(cls, prop):
         if mode == "pos":
@@ -702,6 +1081,11 @@ def model_case(ctx, case):
 
 def run(ctx):
     check_table(ctx)
+    circumcircle_probe(ctx)
+    for case in pair_cases(ctx):
+        ctx.case(case)
+        ctx.count("pair:%s:%s" % (case["cls"], case["share"]))
+        pair_history(ctx, case)
     seen = set()
     for case in all_cases(ctx):
         ctx.case(case)
@@ -721,6 +1105,12 @@ def replay(ctx, payload):
     ctx.case(case)
     if case.get("table"):
         check_table(ctx)
+        return
+    if case.get("probe") == "circumcircle":
+        circumcircle_probe(ctx)
+        return
+    if case.get("pair"):
+        pair_history(ctx, case)
         return
     if case.get("getters"):
         closed_form_getters(ctx, case["cls"], case["flavour"], case["base_seed"])
